@@ -17,3 +17,25 @@ Fixpoint bad_idx (i : N) (l : list obs) : list N :=
 Eval vm_compute in (bad_idx 0 fault_obs).
 Lemma tie_ok : forallb agree fault_obs = true.
 Proof. vm_compute. reflexivity. Qed.
+
+(* after every successful set_rules_dir of the fault histories (also one that follows failed ones on the same
+   directory): the rule files the preference manager has located are those the file-location model of C15 finds on the
+   listing of the moment (the private copy minus the files deleted or moved away; the shipped tree) *)
+From MC Require Import Model.FindFile Gen.RulesTree.
+From Coq Require Import String.
+Local Close Scope string_scope.
+Definition s_ClearSpeak := S "ClearSpeak"%string.
+Definition s_Nemeth := S "Nemeth"%string.
+Definition located_ok (o : bool * list path * list path) : bool :=
+  let '(private, missing, observed) := o in
+  let files := if private then filter (fun f => negb (memP f missing)) pruned_files else rules_files in
+  match t_locate files speech_base english english (speech_files s_ClearSpeak),
+        t_locate files braille_base [s_Nemeth] ueb (braille_files s_Nemeth) with
+  | Some ls, Some lb => all_agree files (ls ++ lb) observed
+  | _, _ => false
+  end.
+Fixpoint bad_loc (i : N) (l : list (bool * list path * list path)) : list N :=
+  match l with [] => [] | c :: r => if located_ok c then bad_loc (i + 1) r else i :: bad_loc (i + 1) r end.
+Eval vm_compute in (bad_loc 0 located_obs).
+Lemma located_tie_ok : forallb located_ok located_obs = true.
+Proof. vm_compute. reflexivity. Qed.
